@@ -23,6 +23,7 @@ import (
 	"encoding/binary"
 	"encoding/hex"
 	"encoding/json"
+	"errors"
 	"fmt"
 	"io"
 	"math/rand"
@@ -30,6 +31,7 @@ import (
 	"os"
 	"path/filepath"
 	"strings"
+	"syscall"
 	"testing"
 	"time"
 
@@ -55,10 +57,67 @@ import (
 
 // ---- recording sender ---------------------------------------------------------------------------
 
-type c12Sender struct{ msgs [][]byte }
+// c12Plan is a fault plan for the registrar's socket during ONE request.
+type c12Plan struct {
+	Pattern string // "" (no fault) | always | once | k<N> | short
+	Errno   string
+	err     error
+	failN   int  // attempts that fail before one is accepted; -1 = every attempt fails
+	short   bool // the accepted attempt reports fewer bytes than it was given (err == nil)
+}
+
+func (p c12Plan) String() string {
+	if p.Pattern == "" {
+		return "-"
+	}
+	return p.Errno + "/" + p.Pattern
+}
+
+var c12Errnos = []struct {
+	name string
+	err  error
+}{
+	{"ETERM", zmq.ETERM}, {"EINVAL", zmq.Errno(syscall.EINVAL)}, {"EAGAIN", zmq.Errno(syscall.EAGAIN)}, {"EINTR", zmq.Errno(syscall.EINTR)},
+	{"EHOSTUNREACH", zmq.Errno(syscall.EHOSTUNREACH)}, {"EFSM", zmq.EFSM}, {"generic", errors.New("send refused")},
+}
+
+func c12RandPlan(r *rand.Rand) c12Plan {
+	e := c12Errnos[r.Intn(len(c12Errnos))]
+	p := c12Plan{Errno: e.name, err: e.err}
+	switch x := r.Intn(20); {
+	case x < 8:
+		p.Pattern, p.failN = "always", -1
+	case x < 12:
+		p.Pattern, p.failN = "once", 1
+	case x < 17:
+		p.failN = []int{2, 3, 4, 7}[r.Intn(4)]
+		p.Pattern = fmt.Sprintf("k%d", p.failN)
+	default:
+		p.Pattern, p.Errno, p.err, p.short = "short", "none", nil, true
+	}
+	return p
+}
+
+// c12Sender stands in for the ZMQ PUB socket.  msgs holds only what the socket ACCEPTED (err == nil).
+type c12Sender struct {
+	msgs     [][]byte
+	plan     c12Plan
+	attempts int
+	failed   int
+}
+
+func (s *c12Sender) reset(p c12Plan) { s.msgs, s.plan, s.attempts, s.failed = s.msgs[:0], p, 0, 0 }
 
 func (s *c12Sender) SendBytes(b []byte, _ zmq.Flag) (int, error) {
+	s.attempts++
+	if s.plan.Pattern != "" && !s.plan.short && (s.plan.failN < 0 || s.attempts <= s.plan.failN) {
+		s.failed++
+		return -1, s.plan.err
+	}
 	s.msgs = append(s.msgs, append([]byte(nil), b...))
+	if s.plan.short {
+		return len(b) / 2, nil
+	}
 	return len(b), nil
 }
 func (s *c12Sender) Close() error { return nil }
@@ -78,6 +137,7 @@ type c12SubCfg struct {
 	Idx   int
 	Gens  []c12Gen
 	V4    []*net.IPNet // every v4 phantom subnet (used to aim exclusions)
+	V6    []*net.IPNet
 	Toml  string
 	Path  string
 	refer *phantoms.PhantomIPSelector // the monitor's own instance: "what would have been selected"
@@ -158,6 +218,8 @@ func c12GenSubCfg(r *rand.Rand, idx int, dir string) *c12SubCfg {
 				fmt.Fprintf(&b, "%q", s)
 				if _, n, err := net.ParseCIDR(s); err == nil && n.IP.To4() != nil {
 					sc.V4 = append(sc.V4, n)
+				} else if err == nil {
+					sc.V6 = append(sc.V6, n)
 				}
 			}
 			b.WriteString("]\n")
@@ -182,6 +244,7 @@ type c12RegCfg struct {
 	Idx      int
 	Auth     bool
 	Override string // constructor-default | none | rand | fixed:<id> | file
+	ExclMode string // legacy | structured
 	OvrFile  string
 	Toml     string
 	conf     c12RegToml
@@ -263,7 +326,15 @@ func c12GenRegCfg(r *rand.Rand, idx int, sc *c12SubCfg) *c12RegCfg {
 	for _, e := range ents {
 		b.WriteString(e)
 	}
-	for i, n := 0, r.Intn(3); i < n; i++ {
+	structured := c12StructuredExclusions(r, sc)
+	rc.ExclMode = "legacy"
+	if structured != nil {
+		rc.ExclMode = "structured"
+	}
+	for _, cidr := range structured {
+		fmt.Fprintf(&b, "[[excluded_subnet_from_overrides]]\ncidr = %q\nweight = 28.7\nport = 80\ntransport = %q\n", cidr, []string{"Min_Transport", "Prefix_Transport"}[r.Intn(2)])
+	}
+	for i, n := 0, r.Intn(3); structured == nil && i < n; i++ {
 		var cidr string
 		switch {
 		case len(sc.V4) > 0 && r.Intn(4) != 0:
@@ -286,6 +357,203 @@ func c12GenRegCfg(r *rand.Rand, idx int, sc *c12SubCfg) *c12RegCfg {
 	}
 	rc.Toml = b.String()
 	return rc
+}
+
+// c12Sub returns the idx-th sub-block of base that is extra bits longer (v4 or v6).
+func c12Sub(base *net.IPNet, extra int, idx uint) *net.IPNet {
+	ones, bits := base.Mask.Size()
+	ip := append(net.IP(nil), base.IP...)
+	if bits == 32 {
+		ip = append(net.IP(nil), base.IP.To4()...)
+	}
+	for k := 0; k < extra; k++ {
+		bit := ones + k
+		if idx>>(uint(extra-1-k))&1 == 1 {
+			ip[bit/8] |= 1 << (7 - uint(bit%8))
+		}
+	}
+	return &net.IPNet{IP: ip, Mask: net.CIDRMask(ones+extra, bits)}
+}
+
+// c12Super returns the enclosing block that is less bits shorter.
+func c12Super(base *net.IPNet, less int) *net.IPNet {
+	ones, bits := base.Mask.Size()
+	if less > ones-1 {
+		less = ones - 1
+	}
+	m := net.CIDRMask(ones-less, bits)
+	ip := base.IP
+	if bits == 32 {
+		ip = base.IP.To4()
+	}
+	return &net.IPNet{IP: ip.Mask(m), Mask: m}
+}
+
+// c12Cluster builds a group of exclusions around one phantom subnet so that the phantoms drawn from it
+// fall below / inside / above the inner ranges: nested (2-3 levels, inner starting later or at the same
+// address), adjacent siblings, several disjoint inner blocks, a wide block whose narrow companion lies
+// entirely below the phantom subnet.
+func c12Cluster(r *rand.Rand, base *net.IPNet) []*net.IPNet {
+	ones, bits := base.Mask.Size()
+	room := bits - ones
+	if room > 6 {
+		room = 6
+	}
+	mid := func(extra int) uint { // an index with room on both sides when there is any
+		n := uint(1) << uint(extra)
+		if n <= 2 {
+			return uint(r.Intn(int(n)))
+		}
+		return 1 + uint(r.Intn(int(n)-2))
+	}
+	var out []*net.IPNet
+	outer := base
+	if r.Intn(3) == 0 {
+		outer = c12Super(base, 1+r.Intn(4))
+	}
+	shape := r.Intn(7)
+	if room < 2 && shape != 5 {
+		shape = 6
+	}
+	switch shape {
+	case 0: // outer + one inner starting later
+		k := 2 + r.Intn(room-1)
+		out = append(out, outer, c12Sub(base, k, mid(k)))
+	case 1: // three levels, each inner one starting later than its parent
+		k := 2 + r.Intn(room-1)
+		in := c12Sub(base, k, mid(k))
+		out = append(out, outer, in)
+		if o2, _ := in.Mask.Size(); bits-o2 >= 1 {
+			k2 := 1 + r.Intn(minInt(3, bits-o2))
+			out = append(out, c12Sub(in, k2, uint(r.Intn(1<<uint(k2)))))
+		}
+	case 2: // same start address (inner = first sub-block), optionally a third one later
+		k := 1 + r.Intn(room)
+		out = append(out, outer, c12Sub(base, k, 0))
+		if r.Intn(2) == 0 && room >= 2 {
+			out = append(out, c12Sub(base, 2, 2))
+		}
+	case 3: // adjacent siblings, with or without an enclosing block
+		k := 2 + r.Intn(room-1)
+		i := mid(k)
+		if i+1 >= 1<<uint(k) {
+			i--
+		}
+		out = append(out, c12Sub(base, k, i), c12Sub(base, k, i+1))
+		if r.Intn(2) == 0 {
+			out = append(out, outer)
+		}
+	case 4: // several disjoint inner blocks inside the outer one: phantoms between them
+		k := 2 + r.Intn(room-1)
+		n := uint(1) << uint(k)
+		out = append(out, outer, c12Sub(base, k, 0+uint(r.Intn(2))), c12Sub(base, k, n-1-uint(r.Intn(2))))
+		if k >= 3 {
+			out = append(out, c12Sub(base, k, n/2))
+		}
+	case 5: // wide block + a narrow block of it that ends before the phantom subnet begins
+		less := 2 + r.Intn(7)
+		wide := c12Super(base, less)
+		wo, _ := wide.Mask.Size()
+		d := ones - wo
+		if d > 16 {
+			d = 16
+		}
+		// index of base inside wide at granularity d bits
+		narrow := c12Sub(wide, d, 0)
+		if d >= 1 {
+			// pick any sub-block of wide; the ones below base are the interesting ones, the others are harmless
+			narrow = c12Sub(wide, d, uint(r.Intn(1<<uint(d))))
+		}
+		out = append(out, wide, narrow)
+		if r.Intn(2) == 0 {
+			out = append(out, c12Sub(wide, d, 0))
+		}
+	default: // a single exclusion (half or whole)
+		if room >= 1 && r.Intn(2) == 0 {
+			out = append(out, c12Sub(base, 1, uint(r.Intn(2))))
+		} else {
+			out = append(out, outer)
+		}
+	}
+	return out
+}
+
+func minInt(a, b int) int {
+	if a < b {
+		return a
+	}
+	return b
+}
+
+// c12StructuredExclusions returns nil when the legacy generator should be used.
+func c12StructuredExclusions(r *rand.Rand, sc *c12SubCfg) []string {
+	if len(sc.V4) == 0 || r.Intn(10) < 3 {
+		return nil
+	}
+	var nets []*net.IPNet
+	for i, n := 0, 1+r.Intn(3); i < n; i++ {
+		nets = append(nets, c12Cluster(r, sc.V4[r.Intn(len(sc.V4))])...)
+	}
+	if len(sc.V6) > 0 && r.Intn(3) == 0 {
+		nets = append(nets, c12Cluster(r, sc.V6[r.Intn(len(sc.V6))])...)
+	}
+	if r.Intn(6) == 0 && len(nets) > 0 {
+		nets = append(nets, nets[r.Intn(len(nets))]) // the same subnet twice
+	}
+	r.Shuffle(len(nets), func(i, j int) { nets[i], nets[j] = nets[j], nets[i] }) // every order
+	var out []string
+	for _, n := range nets {
+		s := n.String()
+		if r.Intn(8) == 0 {
+			// non-canonical spelling (host bits set): ParseCIDR masks it
+			ones, bits := n.Mask.Size()
+			if bits-ones >= 1 {
+				ip := append(net.IP(nil), n.IP...)
+				ip[len(ip)-1] |= 1
+				s = fmt.Sprintf("%s/%d", ip.String(), ones)
+			}
+		}
+		out = append(out, s)
+	}
+	return out
+}
+
+// c12ExclPos classifies where an excluded phantom sits relative to the OTHER exclusions nested in the ones containing it.
+func c12ExclPos(ip net.IP, excl []Subnet) string {
+	var in, notIn []*net.IPNet
+	for _, s := range excl {
+		if s.CIDR.IPNet == nil {
+			continue
+		}
+		if s.CIDR.IPNet.Contains(ip) {
+			in = append(in, s.CIDR.IPNet)
+		} else {
+			notIn = append(notIn, s.CIDR.IPNet)
+		}
+	}
+	if len(in) == 0 {
+		return "not-excluded"
+	}
+	pos := fmt.Sprintf("depth%d", len(in))
+	above, below := false, false
+	for _, n := range notIn {
+		for _, o := range in {
+			if o.Contains(n.IP) { // n nested in a containing exclusion
+				if bytes.Compare(n.IP.To16(), ip.To16()) < 0 {
+					above = true
+				} else {
+					below = true
+				}
+			}
+		}
+	}
+	if above {
+		pos += "+above-inner"
+	}
+	if below {
+		pos += "+below-inner"
+	}
+	return pos
 }
 
 // build constructs the RegProcessor through the repository's constructors and swaps the socket.
@@ -369,6 +637,7 @@ type c12Req struct {
 	Kind   string // general | focus-min | focus-prefix
 	PKind  string // description of the transport parameters
 	Forged string // which forged fields are present: r=response b=bytes s=signature
+	Fault  c12Plan
 }
 
 var c12TypeURL = map[string]string{
@@ -649,6 +918,9 @@ func c12GenReq(r *rand.Rand, sc *c12SubCfg, kind string) *c12Req {
 		q.Addr = net.IPv4(byte(1+r.Intn(222)), byte(r.Intn(256)), byte(r.Intn(256)), byte(1+r.Intn(254)))
 	}
 	q.Uni = kind == "general" && r.Intn(12) == 0
+	if kind == "general" && r.Intn(6) == 0 {
+		q.Fault = c12RandPlan(r)
+	}
 	q.W = w
 	return q
 }
@@ -686,8 +958,9 @@ func (d *c12Desc) MarshalJSON() ([]byte, error) {
 			}
 			return fmt.Sprint(c2s.GetDisableRegistrarOverrides())
 		}(),
-		"params": d.q.PKind,
-		"forged": d.q.Forged,
+		"params":     d.q.PKind,
+		"forged":     d.q.Forged,
+		"send_fault": d.q.Fault.String(),
 	}
 	if d.rc.OvrFile != "" {
 		m["prefix_override_file"] = d.rc.OvrFile
@@ -825,16 +1098,54 @@ func (m *c12Mon) run(q *c12Req) (accepted, substituted bool) {
 	orig := q.W
 	c2s := orig.GetRegistrationPayload()
 	in := proto.Clone(orig).(*pb.C2SWrapper)
-	m.snd.msgs = m.snd.msgs[:0]
+	m.snd.reset(q.Fault)
+	faulted := q.Fault.Pattern != ""
+	entry := "bidirectional"
+	if q.Uni {
+		entry = "unidirectional"
+	}
+	// "told the client => told the stations": a call that reports success while the socket accepted no message
+	toldButNothingAccepted := func(told string) {
+		sig := "accepted-but-nothing-forwarded:" + entry
+		if faulted {
+			class := "final-error"
+			if q.Fault.Errno == "EAGAIN" || q.Fault.Errno == "EINTR" {
+				class = "transient-error"
+			}
+			sig = fmt.Sprintf("told-client-but-no-message-accepted:%s:%s", entry, class)
+		}
+		rec.Violation(sig, "the registrar reported success to its caller although the socket accepted no message for the stations",
+			map[string]interface{}{"told": told, "send_attempts": m.snd.attempts, "failed_attempts": m.snd.failed, "fault": q.Fault.String()})
+	}
+	afterFault := func(err error) {
+		if !faulted {
+			return
+		}
+		rec.Count("evaluations", 1)
+		rec.Count("send_fault_cases", 1)
+		rec.Distinct("nontrivial", "send-fault", entry, q.Fault.Errno, q.Fault.Pattern, err == nil, len(m.snd.msgs))
+		rec.Distinct("send_fault_plans", entry, q.Fault.Errno, q.Fault.Pattern)
+		if err != nil && len(m.snd.msgs) > 0 {
+			rec.Count("error_returned_although_a_message_was_accepted", 1) // stations know more than the client: not this property
+		}
+	}
 
 	if q.Uni {
 		err := m.rp.RegisterUnidirectional(in, q.Method, q.Addr)
+		if m.snd.attempts > 0 {
+			afterFault(err)
+		}
 		if err != nil {
 			rec.Count("refused", 1)
 			return false, false
 		}
-		rec.Count("evaluations", 1)
+		if !faulted {
+			rec.Count("evaluations", 1)
+		}
 		rec.Count("unidirectional", 1)
+		if len(m.snd.msgs) == 0 {
+			toldButNothingAccepted("success (nil error)")
+		}
 		for _, b := range m.snd.msgs {
 			fw := &pb.C2SWrapper{}
 			if err := proto.Unmarshal(b, fw); err != nil {
@@ -860,19 +1171,31 @@ func (m *c12Mon) run(q *c12Req) (accepted, substituted bool) {
 	}
 
 	resp, err := m.rp.RegisterBidirectional(in, q.Method, q.Addr)
+	if m.snd.attempts > 0 {
+		afterFault(err) // the request reached the socket: the send-fault oracle decides either way
+	}
 	if err != nil || resp == nil {
 		rec.Count("refused", 1)
-		rec.Count("refused["+q.Kind+"]: "+c12Short(fmt.Sprint(err)), 1)
+		if faulted && m.snd.attempts > 0 {
+			rec.Count("refused after send fault ["+q.Fault.Pattern+"]", 1)
+		} else {
+			rec.Count("refused["+q.Kind+"]: "+c12Short(fmt.Sprint(err)), 1)
+		}
 		return false, false
 	}
-	rec.Count("evaluations", 1)
+	if !faulted || m.snd.attempts == 0 {
+		rec.Count("evaluations", 1)
+	}
 	tt := c2s.GetTransport()
 	lv := uint(c2s.GetClientLibVersion())
 	disabled := c2s.GetDisableRegistrarOverrides()
 
 	if len(m.snd.msgs) == 0 {
-		rec.Violation("accepted-but-nothing-forwarded", "RegisterBidirectional returned a response but handed nothing to the ZMQ sender", c12RespStr(resp))
+		toldButNothingAccepted(c12RespStr(resp))
 		return true, false
+	}
+	if faulted {
+		rec.Count("told_after_send_fault["+q.Fault.Pattern+"]", 1)
 	}
 	if len(m.snd.msgs) > 1 {
 		rec.Count("multiple_forwards", 1)
@@ -1041,14 +1364,17 @@ func (m *c12Mon) run(q *c12Req) (accepted, substituted bool) {
 	}
 	tname := strings.ToLower(tt.String())
 	excluded := false
+	exclPos := "-"
 	if r4 := resp.GetIpv4Addr(); r4 != 0 {
 		rip := c12V4(r4)
 		if origV4 != nil && c12InAny(origV4, m.rc.conf.ExclusionsFromOverride) >= 0 {
 			excluded = true
 			rec.Count("excluded_phantoms", 1)
+			exclPos = c12ExclPos(origV4, m.rc.conf.ExclusionsFromOverride)
+			rec.Count("excluded["+exclPos+"]", 1)
 			if !rip.Equal(origV4) {
 				rec.Violation("excluded-phantom-replaced:"+tname, "the client's own v4 phantom lies in an excluded subnet but was replaced",
-					map[string]string{"own": origV4.String(), "returned": rip.String()})
+					map[string]string{"own": origV4.String(), "returned": rip.String(), "position": exclPos})
 			}
 		}
 		if (origV4 == nil && (kerr == nil)) || (origV4 != nil && !rip.Equal(origV4)) {
@@ -1098,7 +1424,7 @@ func (m *c12Mon) run(q *c12Req) (accepted, substituted bool) {
 		}
 	}
 	rec.Distinct("nontrivial", tt, lv, c2s.GetV4Support(), c2s.GetV6Support(), c2s.DisableRegistrarOverrides != nil, disabled, q.PKind, q.Forged,
-		m.rc.Auth, m.rc.Override, m.rc.conf.EnforceSubnetOverrides, substituted, excluded, resp.GetTransportParams() != nil, srcKind, stationRegs)
+		m.rc.Auth, m.rc.Override, m.rc.conf.EnforceSubnetOverrides, substituted, excluded, exclPos, q.Fault.Pattern, resp.GetTransportParams() != nil, srcKind, stationRegs)
 	rec.Distinct("classes", tt, disabled, m.rc.Auth, m.rc.Override, substituted, excluded, resp.GetTransportParams() != nil, stationRegs)
 	if resp.GetTransportParams() != nil {
 		rec.Count("param_overrides_seen", 1)
@@ -1182,6 +1508,7 @@ func TestVerifC12(t *testing.T) {
 	nSub := kit.Tier(4, 16)
 	nReg := kit.Tier(8, 60)
 	nGeneral := kit.Tier(150, 330)
+	nExcl := kit.Tier(120, 200)
 	const wantSubst = 420
 	const focusCap = 2600
 
@@ -1223,6 +1550,7 @@ func TestVerifC12(t *testing.T) {
 			rc := c12GenRegCfg(r, si*1000+ri, sc)
 			rp, snd := rc.build(t, r, met)
 			rec.Distinct("registrar_configs", rc.Toml, rc.Auth, rc.Override, rc.OvrFile)
+			rec.Count("exclusion_lists["+rc.ExclMode+"]", 1)
 			m := &c12Mon{t: t, rec: rec, sc: sc, rc: rc, rp: rp, snd: snd, trs: trs, tal: map[pb.TransportType]*c12Tally{}}
 			// requests come from a PRNG of their own, so that the sequence of configurations does not depend on how many
 			// distribution trials the (crypto/rand-driven) code under test happened to need
@@ -1253,6 +1581,23 @@ func TestVerifC12(t *testing.T) {
 						}
 						m.run(c12GenReq(rq, sc, f.kind))
 						rec.Count("distribution_trials", 1)
+					}
+				}
+			}
+			// exclusion trials: requests of a transport whose override is armed, so that own phantoms below / inside /
+			// above nested exclusions would be replaced if the exclusion decision went wrong
+			if rc.conf.EnforceSubnetOverrides && len(rc.conf.ExclusionsFromOverride) > 0 {
+				for _, f := range []struct {
+					kind string
+					nets []Subnet
+					pct  float64
+				}{{"focus-min", rc.minNets, rc.conf.PrcntMinRegsToOverride}, {"focus-prefix", rc.prefixNets, rc.conf.PrcntPrefixRegsToOverride}} {
+					if len(f.nets) == 0 || f.pct == 0 {
+						continue
+					}
+					for n := 0; n < nExcl; n++ {
+						m.run(c12GenReq(rq, sc, f.kind))
+						rec.Count("exclusion_trials", 1)
 					}
 				}
 			}
